@@ -1,3 +1,265 @@
 package main
 
-func thoroughExtras(w *World, prop string, extra map[string]interface{}) {}
+import (
+	"encoding/json"
+	"fmt"
+	"os"
+	"os/exec"
+	"path/filepath"
+	"runtime"
+	"sort"
+	"strings"
+	"sync"
+)
+
+// Variant is a seeded change to the analysed repository used to test the checker itself: the named
+// rules must report a violation on a scratch copy of /repo with the patch applied.
+type Variant struct {
+	ID      string `json:"id"`
+	Source  string `json:"source"` // "revert of fix <sha>", "sub-agent", "hand-written"
+	Reverse bool   `json:"reverse"` // apply patch.diff with -R (reverts of fix commits)
+	What    string `json:"what"`
+	Expect  []struct {
+		Property string `json:"property"`
+		Rule     string `json:"rule"`
+	} `json:"expect"`
+	dir string
+}
+
+func loadVariants(verif string) []Variant {
+	var out []Variant
+	for _, root := range []string{filepath.Join(verif, "variants"), filepath.Join(verif, "seeded")} {
+		ents, _ := os.ReadDir(root)
+		for _, e := range ents {
+			if !e.IsDir() {
+				continue
+			}
+			b, err := os.ReadFile(filepath.Join(root, e.Name(), "meta.json"))
+			if err != nil {
+				continue
+			}
+			var v Variant
+			if json.Unmarshal(b, &v) != nil {
+				continue
+			}
+			if v.ID == "" {
+				v.ID = e.Name()
+			}
+			v.dir = filepath.Join(root, e.Name())
+			out = append(out, v)
+		}
+	}
+	sort.Slice(out, func(i, j int) bool { return out[i].ID < out[j].ID })
+	return out
+}
+
+type variantResult struct {
+	ID      string   `json:"id"`
+	Source  string   `json:"source"`
+	Status  string   `json:"status"` // fired | missed | skipped
+	Expect  []string `json:"expected_rules"`
+	Fired   []string `json:"fired_rules"`
+	Detail  string   `json:"detail"`
+}
+
+func copyTree(src, dst string) error {
+	return filepath.Walk(src, func(p string, info os.FileInfo, err error) error {
+		if err != nil {
+			return err
+		}
+		rel, _ := filepath.Rel(src, p)
+		if rel == ".git" || strings.HasPrefix(rel, ".git"+string(filepath.Separator)) {
+			if info.IsDir() {
+				return filepath.SkipDir
+			}
+			return nil
+		}
+		t := filepath.Join(dst, rel)
+		if info.IsDir() {
+			return os.MkdirAll(t, 0o755)
+		}
+		if !info.Mode().IsRegular() {
+			return nil
+		}
+		b, err := os.ReadFile(p)
+		if err != nil {
+			return err
+		}
+		return os.WriteFile(t, b, 0o644)
+	})
+}
+
+func runVariant(self, repo, prop string, v Variant, scratchRoot string) variantResult {
+	res := variantResult{ID: v.ID, Source: v.Source}
+	for _, e := range v.Expect {
+		if e.Property == prop {
+			res.Expect = append(res.Expect, e.Rule)
+		}
+	}
+	dir := filepath.Join(scratchRoot, v.ID)
+	vd := filepath.Join(scratchRoot, v.ID+"-verif")
+	defer os.RemoveAll(dir)
+	defer os.RemoveAll(vd)
+	if err := copyTree(repo, dir); err != nil {
+		res.Status, res.Detail = "skipped", "copy failed: "+err.Error()
+		return res
+	}
+	args := []string{"apply", "--whitespace=nowarn"}
+	if v.Reverse {
+		args = append(args, "-R")
+	}
+	args = append(args, filepath.Join(v.dir, "patch.diff"))
+	cmd := exec.Command("git", args...)
+	cmd.Dir = dir
+	if out, err := cmd.CombinedOutput(); err != nil {
+		res.Status, res.Detail = "skipped", "patch does not apply to the current tree (the tree differs from the one the variant was made for): "+strings.TrimSpace(string(out))
+		return res
+	}
+	os.MkdirAll(vd, 0o755)
+	// known findings are honoured in the variant run too
+	if b, err := os.ReadFile(filepath.Join(filepath.Dir(filepath.Dir(v.dir)), "known_findings.json")); err == nil {
+		os.WriteFile(filepath.Join(vd, "known_findings.json"), b, 0o644)
+	}
+	c2 := exec.Command(self, "-property", prop, "-tier", "quick", "-repo", dir, "-verif", vd)
+	c2.Env = append(os.Environ(), "VERIF_TIER=quick")
+	out, _ := c2.CombinedOutput()
+	b, err := os.ReadFile(filepath.Join(vd, "evidence", prop+".json"))
+	if err != nil {
+		// a variant that does not type-check is not a usable variant
+		res.Status, res.Detail = "skipped", "no evidence produced: "+firstLine(string(out))
+		return res
+	}
+	var ev struct {
+		Coverage struct {
+			All []Obligation `json:"all_obligations"`
+		} `json:"coverage"`
+	}
+	json.Unmarshal(b, &ev)
+	fired := map[string]bool{}
+	for _, o := range ev.Coverage.All {
+		if o.Verdict != Holds && o.Known == "" {
+			fired[o.Rule] = true
+		}
+	}
+	for r := range fired {
+		res.Fired = append(res.Fired, r)
+	}
+	sort.Strings(res.Fired)
+	ok := false
+	for _, e := range res.Expect {
+		if fired[e] {
+			ok = true
+		}
+	}
+	if ok {
+		res.Status = "fired"
+	} else {
+		res.Status = "missed"
+		res.Detail = "none of the expected rules reported a violation on the variant"
+	}
+	return res
+}
+
+func firstLine(s string) string {
+	if i := strings.Index(s, "\n"); i >= 0 {
+		return s[:i]
+	}
+	return s
+}
+
+// thoroughExtras: (a) self-test of the property's rules on seeded variants (each in its own process),
+// (b) re-analysis under GOARCH=386 (covers build-constrained files), verdicts must agree.
+func thoroughExtras(w *World, prop string, extra map[string]interface{}) {
+	self, err := os.Executable()
+	if err != nil {
+		w.undecided(prop, "R00.selftest", "self-test", 0, "cannot locate the checker binary")
+		return
+	}
+	verif := verifDir
+	vars := loadVariants(verif)
+	var mine []Variant
+	for _, v := range vars {
+		for _, e := range v.Expect {
+			if e.Property == prop {
+				mine = append(mine, v)
+				break
+			}
+		}
+	}
+	scratch, err := os.MkdirTemp("", "xselcheck-")
+	if err != nil {
+		w.undecided(prop, "R00.selftest", "self-test", 0, "no scratch directory: "+err.Error())
+		return
+	}
+	defer os.RemoveAll(scratch)
+	results := make([]variantResult, len(mine))
+	sem := make(chan struct{}, max(1, runtime.NumCPU()/2))
+	var wg sync.WaitGroup
+	for i, v := range mine {
+		wg.Add(1)
+		go func(i int, v Variant) {
+			defer wg.Done()
+			sem <- struct{}{}
+			defer func() { <-sem }()
+			results[i] = runVariant(self, w.RepoDir, prop, v, scratch)
+		}(i, v)
+	}
+	wg.Wait()
+	docRule(prop, "R00.selftest", "self-test", "thorough tier: every seeded variant that is expected to break a rule of this property (reverts of the fix commits, changes written by independent sub-agents, hand-written slips) is applied to a scratch copy of the current tree and re-analysed in its own process; the expected rule must report a violation there. Variants whose patch does not apply to the current tree are skipped (reported, not failed).")
+	nf, nm, ns := 0, 0, 0
+	for _, r := range results {
+		switch r.Status {
+		case "fired":
+			nf++
+			w.check(prop, "R00.selftest", "variant "+r.ID, 0, true, fmt.Sprintf("expected %v, fired %v (%s)", r.Expect, r.Fired, r.Source))
+		case "missed":
+			nm++
+			w.check(prop, "R00.selftest", "variant "+r.ID, 0, false, fmt.Sprintf("expected one of %v to fire on the seeded variant, fired %v: the rule lost its power", r.Expect, r.Fired))
+		default:
+			ns++
+		}
+	}
+	extra["selftest"] = map[string]interface{}{"variants": len(mine), "fired": nf, "missed": nm, "skipped": ns, "results": results}
+
+	// (b) GOARCH=386
+	vd := filepath.Join(scratch, "arch386")
+	os.MkdirAll(vd, 0o755)
+	if b, err := os.ReadFile(filepath.Join(verif, "known_findings.json")); err == nil {
+		os.WriteFile(filepath.Join(vd, "known_findings.json"), b, 0o644)
+	}
+	c := exec.Command(self, "-property", prop, "-tier", "quick", "-repo", w.RepoDir, "-verif", vd)
+	c.Env = append(os.Environ(), "GOARCH=386", "VERIF_TIER=quick")
+	out, _ := c.CombinedOutput()
+	b, err := os.ReadFile(filepath.Join(vd, "evidence", prop+".json"))
+	docRule(prop, "R00.arch", "matrix", "thorough tier: the same rules evaluated on the program loaded with GOARCH=386 (a second build configuration) give the same set of non-holding obligations.")
+	if err != nil {
+		w.undecided(prop, "R00.arch", "GOARCH=386 analysis", 0, "no evidence: "+firstLine(string(out)))
+		return
+	}
+	var ev struct {
+		Coverage struct {
+			All []Obligation `json:"all_obligations"`
+		} `json:"coverage"`
+	}
+	json.Unmarshal(b, &ev)
+	other := map[string]bool{}
+	for _, o := range ev.Coverage.All {
+		if o.Verdict != Holds {
+			other[o.Rule+"|"+o.Construct] = true
+		}
+	}
+	mineSet := map[string]bool{}
+	for _, o := range w.Obs {
+		if o.Property == prop && o.Verdict != Holds && !strings.HasPrefix(o.Rule, "R00.") {
+			mineSet[o.Rule+"|"+o.Construct] = true
+		}
+	}
+	same := len(other) == len(mineSet)
+	for k := range other {
+		if !mineSet[k] {
+			same = false
+		}
+	}
+	w.check(prop, "R00.arch", "GOARCH=386 analysis agrees", 0, same, fmt.Sprintf("%d obligations evaluated under GOARCH=386; non-holding sets equal: %v", len(ev.Coverage.All), same))
+	extra["arch_matrix"] = []string{runtime.GOARCH + " (default)", "386"}
+}
